@@ -48,7 +48,8 @@ Clause(k) ==
         ELSE IF k.hasold /\ k.final = "absent" THEN "entry-stored-before-the-crash-lost"
         ELSE IF k.final = "partial" /\ k.first # "searched" THEN "tree-built-from-partial-entry"
         ELSE IF k.final = "absent" /\ k.first # "searched" THEN "absent-entry-not-searched"
-        ELSE IF k.final = "old" /\ k.first \notin {"old", "searched"} THEN "old-entry-lost"
+        \* the entry stored before the crash is still in place after it: it remains readable, the later runs use it
+        ELSE IF k.final = "old" /\ (k.first # "old" \/ k.second # "old") THEN "old-entry-lost"
         ELSE IF k.final = "new" /\ k.first \notin {"new", "searched"} THEN "new-entry-not-used"
         ELSE IF k.other # "hit" THEN "entry-stored-before-the-crash-unreadable"
         ELSE IF k.other_auto # "hit" THEN "entry-stored-before-the-crash-unreadable-with-default-layout-detection"
